@@ -259,7 +259,14 @@ func runC24(r *Run) {
 		o.OK("ordinary bytes add nothing to %s", nObj.Name())
 	}
 
+	want := map[int64]int64{}
+	for _, c := range ws.clauses {
+		for _, v := range c.vals {
+			want[v] = int64(len(c.lit)) - 1
+		}
+	}
 	c24BufferSize(r, key, fi, info, bObj, nObj, subj)
+	c24CounterWrites(r, key, fi, nObj, subj, want, cs.sw)
 	r.Require(R1, 5*3+5)
 
 	c24Forwarders(r, fi)
